@@ -55,7 +55,7 @@ def parse_report(text):
     return blocks, None
 
 
-def check_file(ctx, stem, text_in, model=None, subdir="inputs"):
+def check_file(ctx, stem, text_in, model=None, subdir="inputs", symlink_target=None):
     cr = repo("conditionalrewards")
     d = tempfile.mkdtemp(prefix="crv_")
     inp = {"stem": stem, "subdir": subdir, "file_text": text_in if len(text_in) < 20000 else text_in[:300]}
@@ -65,7 +65,12 @@ def check_file(ctx, stem, text_in, model=None, subdir="inputs"):
         rel = f"{subdir}/{stem}.py"
         # a report of an earlier run of the same input must be replaced, not extended
         open(os.path.join(d, "outputs", stem + ".txt"), "w").write("=" * 160 + "\nRunning example         : stale\n")
-        open(os.path.join(d, rel), "w", encoding="utf-8").write(text_in)
+        if symlink_target:
+            # the real file has another name; the path given on the command line is a symbolic link to it
+            open(os.path.join(d, subdir.lstrip("./"), symlink_target + ".py"), "w", encoding="utf-8").write(text_in)
+            os.symlink(symlink_target + ".py", os.path.join(d, rel))
+        else:
+            open(os.path.join(d, rel), "w", encoding="utf-8").write(text_in)
         # in-process: what the batch run produces
         try:
             with quiet(), time_limit(30.0):
@@ -78,7 +83,10 @@ def check_file(ctx, stem, text_in, model=None, subdir="inputs"):
         try:
             denoted = ast.literal_eval(text_in)
         except Exception:  # noqa
-            denoted = None
+            try:
+                denoted = eval(compile(text_in, "<input>", "eval"), {})       # independent evaluation of the same text
+            except Exception:  # noqa
+                denoted = None
         if denoted is not None:
             g2 = {k: {kk: vv for kk, vv in v.items() if kk != "prune_states"} for k, v in games.items()}
             if g2 != denoted or list(g2.keys()) != list(denoted.keys()):
@@ -124,7 +132,17 @@ def check_file(ctx, stem, text_in, model=None, subdir="inputs"):
             if not ok:
                 ctx.violation("line-reads-back", dict(inp, entry=name), {"label": lab, "line": b[idx][:200], "value": repr(e.get(key))[:200]})
                 return
-    if model is not None:
+    def _strings(x):
+        if isinstance(x, str):
+            yield x
+        elif isinstance(x, (list, tuple)):
+            for y in x:
+                yield from _strings(y)
+    in_domain = all(s_.isprintable() and "'" not in s_ and "\\" not in s_
+                    for name, e in res.items() for s_ in list(_strings([name, e["reachability_strategies"], e["final_strategies"]])))
+    if not in_domain:
+        ctx.count("outside_report_model_domain(non-printable or quoted strings)")
+    if model is not None and in_domain:
         ents = []
         for name, e in res.items():
             ents.append({"name": name, "msg": str(e["msg"]), "n_states": rval(e["n_states"]), "n_transitions": rval(e["n_transitions"]),
@@ -166,6 +184,26 @@ def run(ctx, model=None):
         p = os.path.join(REPO, "inputs", f)
         if os.path.exists(p):
             check_file(ctx, f[:-3], open(p).read(), model)
+    # a game with more than 1000 states / transitions (digit grouping, long vectors)
+    N_ = 1250
+    star = {"rewards": [1] + [i % 3 for i in range(N_)] + [0, 0], "players": ["Probabilistic"] * (N_ + 3),
+            "transition_list": [[(1 / N_, 1 + i) for i in range(N_)]] + [[(1, N_ + 2)] if i % 5 else [(0.5, N_ + 2), (0.5, N_ + 1)] for i in range(N_)] +
+            [[(1, N_ + 1)], [(1, N_ + 2)]], "final_states": [N_ + 2]}
+    check_file(ctx, "big_star_1250", render_game_file([("star", star)]), model)
+    # expressions a hand-written input may use: builtins, arithmetic, comprehensions, comments
+    expr = ("{  # hand-written\n 'calc_1': {'rewards': [0] * 3 + [min(2, 5)], 'players': ['Probabilistic' for _ in range(4)],\n"
+            "   'transition_list': [[(1/2, 1), (0.5, 2)], [(1, 3)], [(1, 2)], [(float(1), 3)]], 'final_states': list(range(3, 4))},\n"
+            " 'calc_2': {'rewards': [10**3, len('ab'), 0], 'players': ['Player 1', 'Probabilistic', 'Probabilistic'],\n"
+            "   'transition_list': [[('a', 1), ('b', 2)], [(round(0.25, 2), 2), (1 - 0.25, 1)], [(1, 2)]], 'final_states': [max(0, 2)]}\n}\n")
+    check_file(ctx, "expr_input_1", expr, model)
+    # NO-BREAK SPACE inside names: 'a\xa0b' and 'a b' are different actions, 'Player\xa01' is not a player
+    nb = {"rewards": [0, 1, 2, 0, 0], "players": ["Player 1", "Probabilistic", "Probabilistic", "Probabilistic", "Probabilistic"],
+          "transition_list": [[("go\u00a0on", 1), ("go on", 2)], [(1, 4)], [(0.5, 4), (0.5, 3)], [(1, 3)], [(1, 4)]], "final_states": [4]}
+    nb_bad = copy.deepcopy(nb)
+    nb_bad["players"][0] = "Player\u00a01"
+    check_file(ctx, "nbsp_names_1", render_game_file([("game\u00a0a", nb), ("game a", nb), ("bad", nb_bad)]), model)
+    # the input given through a symbolic link with another name
+    check_file(ctx, "current_2", render_game_file([("g_1", nb)]), model, symlink_target="fork_v3")
     N = 6 if ctx.quick() else 400
     for it in range(N):
         k = rng.randint(1, 5)
